@@ -9,6 +9,7 @@
 package main
 
 import (
+	"time"
 	"flag"
 	"fmt"
 	"os"
@@ -41,6 +42,9 @@ func main() {
 		fatal("%v", err)
 	}
 	_ = replay
+	// the process's local time zone is NOT UTC: whatever the library prints or parses must not
+	// depend on it (dates are seconds since the epoch, printed in UTC)
+	time.Local = time.FixedZone("verif-zone", 5*3600+1800)
 	res := NewResult(prop, *tier, *seed)
 	run(res, NewRNG(*seed), *tier, *out)
 	res.Write(*out)
